@@ -1,0 +1,238 @@
+//go:build verif
+
+// Contracts for package crlstore. Both backends refine ONE interface contract written over an abstract
+// view: storeHas(s, k) — "hashed key k is present in store s".
+
+package crlstore
+
+//@ spec func absHas(tag int, s int, k string) bool uninterpreted
+//@ spec func storeHas(s ref, k string) bool = ite(typeis(s, *MapStore), has(as(s, *MapStore).Map, k), ite(typeis(s, *LevelDbStore), $ldbhas[as(s, *LevelDbStore).Db][k], absHas(s, k)))
+//@ spec func mapStoreOK(m ref) bool = m != nil && m.Map != nil && m.Serializer != nil && (forall k string :: has(m.Map, k) ==> m.Map[k] != nil)
+//@ spec func ldbStoreOK(l ref) bool = l != nil && l.Db != nil && l.Serializer != nil && l.Logger != nil
+//@ spec func storeOK(s ref) bool = s != nil && (typeis(s, *MapStore) ==> mapStoreOK(as(s, *MapStore))) && (typeis(s, *LevelDbStore) ==> ldbStoreOK(as(s, *LevelDbStore)))
+//@ spec func entryKey(issuerStr string, serialStr string) string = sum64(issuerStr + "_" + serialStr)
+//@ spec func added(s ref, k string) bool = forall q string :: storeHas(s, q) == (old(storeHas(s, q)) || q == k)
+//@ spec func atMostAdded(s ref, k string) bool = forall q string :: storeHas(s, q) ==> (old(storeHas(s, q)) || q == k)
+
+// ---- the interface contract
+
+//@ func CRLStore.InsertRevokedCert
+//@   props C01 C09 C11 C18
+//@   requires storeOK(self)
+//@   requires entry != nil && entry.Issuer != nil && entry.RevokedCertificate != nil
+//@   assigns M.map[string][]uint8, X.ldbhas, X.fs
+//@   ensures storeOK(self)
+//@   ensures[C01,C18] inserted: err == nil ==> added(self, entryKey(rdnString(*entry.Issuer), decString(big(entry.RevokedCertificate.SerialNumber))))
+//@   ensures[C11,C18] nothing_else: atMostAdded(self, entryKey(rdnString(*entry.Issuer), decString(big(entry.RevokedCertificate.SerialNumber))))
+
+//@ func CRLStore.GetCertRevocationStatus
+//@   props C01 C09 C11 C18
+//@   requires storeOK(self) && issuer != nil
+//@   assigns X.fs
+//@   ensures err == nil ==> ret != nil
+//@   ensures[C01,C09,C18] listed_is_reported: err == nil && storeHas(self, entryKey(rdnString(*issuer), decString(big(certSerial)))) ==> ret.Revoked
+//@   ensures[C11,C18] reported_is_listed: err == nil && ret.Revoked ==> storeHas(self, entryKey(rdnString(*issuer), decString(big(certSerial))))
+
+//@ func CRLStore.StartUpdateCrl
+//@   props C18 C12 C11
+//@   requires storeOK(self) && info != nil
+//@   assigns M.map[string][]uint8, X.ldbhas, X.fs
+//@   ensures storeOK(self)
+//@   ensures[C18] inserted: err == nil ==> added(self, sum64(MetaInfoKey))
+//@   ensures[C11,C18] nothing_else: atMostAdded(self, sum64(MetaInfoKey))
+
+//@ func CRLStore.UpdateExtendedMetaInfo
+//@   props C18 C11
+//@   requires storeOK(self) && extendedInfo != nil
+//@   assigns M.map[string][]uint8, X.ldbhas, X.fs
+//@   ensures storeOK(self)
+//@   ensures[C18] inserted: err == nil ==> added(self, sum64(ExtendedMetaInfoKey))
+//@   ensures[C11,C18] nothing_else: atMostAdded(self, sum64(ExtendedMetaInfoKey))
+
+//@ func CRLStore.UpdateSignatureCertificate
+//@   props C18 C11
+//@   requires storeOK(self) && $1 != nil && $1.RawCertificate != nil
+//@   assigns M.map[string][]uint8, X.ldbhas, X.fs
+//@   ensures storeOK(self)
+//@   ensures[C18] inserted: err == nil ==> added(self, sum64(SignatureCertKey))
+//@   ensures[C11,C18] nothing_else: atMostAdded(self, sum64(SignatureCertKey))
+
+//@ func CRLStore.UpdateCRLLocations
+//@   props C18 C11
+//@   requires storeOK(self) && points != nil
+//@   assigns M.map[string][]uint8, X.ldbhas, X.fs
+//@   ensures storeOK(self)
+//@   ensures[C18] inserted: err == nil ==> added(self, sum64(CRLLocationKey))
+//@   ensures[C11,C18] nothing_else: atMostAdded(self, sum64(CRLLocationKey))
+
+//@ func CRLStore.GetCRLMetaInfo
+//@   props C18 C09
+//@   requires storeOK(self)
+//@   assigns X.fs
+//@   ensures err == nil ==> ret != nil
+//@ func CRLStore.GetCRLExtMetaInfo
+//@   props C18 C09
+//@   requires storeOK(self)
+//@   assigns X.fs
+//@   ensures err == nil ==> ret != nil
+//@ func CRLStore.GetCRLSignatureCert
+//@   props C18 C09
+//@   requires storeOK(self)
+//@   assigns X.fs
+//@   ensures err == nil ==> ret != nil
+//@ func CRLStore.GetCRLLocations
+//@   props C18 C09
+//@   requires storeOK(self)
+//@   assigns X.fs
+//@   ensures err == nil ==> ret != nil
+
+//@ func CRLStore.IsEmpty
+//@   props C18 C12 C16
+//@   requires storeOK(self)
+//@   assigns X.fs
+//@   ensures[C18,C12,C16] empty_means_no_meta: !ret ==> storeHas(self, sum64(MetaInfoKey))
+
+//@ func CRLStore.Update
+//@   props C08 C11 C18
+//@   requires storeOK(self) && storeOK(store) && store != self
+//@   assigns MapStore.Map, M.map[string][]uint8, LevelDbStore.Db, X.ldbhas, X.fs
+//@   ensures[C11,C18] replaced: err == nil ==> storeOK(self) && (forall k string :: storeHas(self, k) == old(storeHas(store, k)))
+//@   ensures[C08] failure_keeps_old: err != nil ==> storeOK(self) && (forall k string :: storeHas(self, k) == old(storeHas(self, k)))
+
+//@ func CRLStore.Close
+//@   props C18 C20
+//@   requires storeOK(self)
+//@   assigns X.fs
+//@ func CRLStore.Delete
+//@   props C18 C20
+//@   requires storeOK(self)
+//@   assigns X.fs
+
+//@ spec func factoryOK(f ref) bool = f != nil && (typeis(f, MapStoreFactory) ==> as(f, MapStoreFactory).Serializer != nil) && (typeis(f, LevelDbStoreFactory) ==> as(f, LevelDbStoreFactory).Serializer != nil && as(f, LevelDbStoreFactory).Logger != nil)
+
+//@ func Factory.CreateStore
+//@   props C18 C20
+//@   requires factoryOK(self)
+//@   assigns X.fs, X.ldbhas
+//@   ensures err == nil ==> ret != nil && storeOK(ret)
+
+// ---- serializer (encoding/asn1 round trips are assumed, see DESIGN C18)
+
+//@ func Serializer.*
+//@   pure
+//@ func Serializer.SerializeMetaInfo
+//@   requires $1 != nil
+//@   pure
+//@   ensures err == nil ==> ret != nil
+//@ func Serializer.SerializeRevokedCert
+//@   requires $1 != nil
+//@   pure
+//@   ensures err == nil ==> ret != nil
+//@ func Serializer.SerializeMetaInfoExt
+//@   requires $1 != nil
+//@   pure
+//@   ensures err == nil ==> ret != nil
+//@ func Serializer.SerializeCRLLocations
+//@   requires $1 != nil
+//@   pure
+//@   ensures err == nil ==> ret != nil
+//@ func Serializer.DeserializeMetaInfo
+//@   pure
+//@   ensures err == nil ==> ret != nil
+//@ func Serializer.DeserializeRevokedCert
+//@   pure
+//@   ensures err == nil ==> ret != nil
+//@ func Serializer.DeserializeMetaInfoExt
+//@   pure
+//@   ensures err == nil ==> ret != nil
+//@ func Serializer.DeserializeSignatureCert
+//@   pure
+//@   ensures err == nil ==> ret != nil
+//@ func Serializer.DeserializeCRLLocations
+//@   pure
+//@   ensures err == nil ==> ret != nil
+
+// ---- MapStore internals
+
+//@ func MapStore.set
+//@   props C01 C11 C18
+//@   requires S != nil && S.Map != nil
+//@   assigns M.map[string][]uint8
+//@   ensures err == nil
+//@   ensures forall q string :: has(S.Map, q) == (old(has(S.Map, q)) || q == sum64(key))
+//@   ensures S.Map[sum64(key)] == bytes
+//@   ensures forall q string :: q != sum64(key) ==> S.Map[q] == old(S.Map[q])
+
+//@ func MapStore.get
+//@   props C01 C09 C11 C18
+//@   requires S != nil
+//@   pure
+//@   ensures err == nil ==> has(S.Map, sum64(key)) && ret != nil && ret == S.Map[sum64(key)]
+//@   ensures err != nil ==> !has(S.Map, sum64(key)) || S.Map[sum64(key)] == nil
+
+//@ func MapStore.close
+//@   props C18
+//@   requires S != nil
+//@   assigns *S
+//@   ensures S.Serializer == old(S.Serializer)
+
+//@ func MapStore.Update
+//@   props C08 C11 C18
+//@   loop 1 invariant a: S.Map != nil
+//@   loop 1 invariant b: S != storeNew
+//@   loop 1 invariant c: S.Map != storeNew.Map
+//@   loop 1 invariant d: forall q string :: has(storeNew.Map, q) == entry(has(as(store, *MapStore).Map, q))
+//@   loop 1 invariant e: forall q string :: storeNew.Map[q] == entry(as(store, *MapStore).Map[q])
+//@   loop 1 invariant f: S.Serializer == entry(S.Serializer)
+//@   loop 1 invariant forall q string :: has(S.Map, q) == visited(q)
+//@   loop 1 invariant forall q string :: visited(q) ==> has(storeNew.Map, q) && S.Map[q] == storeNew.Map[q]
+
+//@ func CreateStoreFactory
+//@   props C18 C20
+//@   pure
+//@   ensures err == nil ==> ret != nil
+
+// ---- the persisting consumer of the streaming reader
+
+//@ spec func processorOK(p ref) bool = p != nil && (typeis(p, CRLPersisterProcessor) ==> storeOK(as(p, CRLPersisterProcessor).CRLStore))
+
+//@ func CRLPersisterProcessor.UpdateCRLLocations
+//@   props C18 C07
+//@   requires storeOK(C.CRLStore) && crlLocations != nil
+//@   assigns M.map[string][]uint8, X.ldbhas, X.fs
+//@   ensures storeOK(C.CRLStore)
+
+// ---- LevelDbStore internals
+
+//@ func LevelDbStore.closeDbWithRetries
+//@   props C08 C12 C20
+//@   requires S != nil && S.Logger != nil && db != nil
+//@   assigns X.fs, X.retry
+//@ func LevelDbStore.removeWithRetries
+//@   props C08 C12 C20
+//@   requires S != nil && S.Logger != nil
+//@   assigns X.fs, X.retry
+//@ func LevelDbStore.renameWithRetries
+//@   props C08 C12 C20
+//@   requires S != nil && S.Logger != nil
+//@   assigns X.fs, X.retry
+//@ func LevelDbStore.renameWithRetriesToTempDir
+//@   props C08 C12 C20
+//@   requires S != nil && S.Logger != nil
+//@   assigns X.fs, X.retry
+//@ func createRandomFileName
+//@   props C20
+//@   pure
+//@ func createTempDirWithRetries
+//@   props C20
+//@   requires logger != nil
+//@   assigns X.fs, X.retry
+//@ func openDbWithRetries
+//@   props C12 C20
+//@   requires logger != nil
+//@   assigns X.fs, X.ldbhas, X.retry
+//@   ensures err == nil ==> ret != nil
+//@ func ASN1Serializer.SerializeSignatureCert
+//@   props C18
+//@   requires cert != nil
+//@   pure
